@@ -129,7 +129,7 @@ func runTx(prop string, args []string) {
 				if tier != "thorough" && p.intn(3) != 0 {
 					continue
 				}
-				for dec := 0; dec < 2; dec++ {
+				for dec := 0; dec < 3; dec++ {
 					var prm parameters.Map
 					limit := interface{}(nil)
 					limVar := -1
@@ -170,6 +170,7 @@ func runTx(prop string, args []string) {
 					c := catchOpen(catchTestdata(ds), prm)
 					c.apply(catchOp{Op: "SYNC", Bits: bits})
 					before := c.obs()
+					attrsBefore := c.allAttrs()
 					encBefore := txEncoding(c)
 					txAggregateOracle(c, ds, bits, "before", &fails)
 					c.toggleObserved(i)
@@ -187,16 +188,20 @@ func runTx(prop string, args []string) {
 							quote, hasQuote = txParseQuote(txt[idx:], catchVarScale[limVar])
 						}
 					}
-					if dec == 0 {
+					switch dec {
+					case 0:
 						c.m.AcceptChange()
-					} else {
+					case 1:
+						c.m.RevertChange()
+					default: // accept, then undo it again
+						c.m.AcceptChange()
 						c.m.RevertChange()
 					}
 					after := c.obs()
 					encAfter := txEncoding(c)
 					stateValid, _ := c.m.StateIsValid()
 					txAggregateOracle(c, ds, bits, "after", &fails)
-					emit(J{"kind": "case", "dataset": ds, "bits": bits, "i": i, "accept": dec == 0, "limit": limit,
+					emit(J{"kind": "case", "dataset": ds, "bits": bits, "i": i, "accept": dec == 0, "dec": dec, "limit": limit,
 						"before": before, "during": during, "changes": changes, "valid": valid, "quote": quote, "has_quote": hasQuote,
 						"after": after, "state_valid": stateValid})
 					stats["cases"]++
@@ -212,14 +217,14 @@ func runTx(prop string, args []string) {
 						if dec == 0 && at[k] != bt[k]+changes[k] {
 							bad = "accept did not move " + catchVarNames[k] + " by the reported change"
 						}
-						if dec == 1 && at[k] != bt[k] {
+						if dec >= 1 && at[k] != bt[k] {
 							bad = "revert did not restore the total of " + catchVarNames[k]
 						}
 						for j, pu := range c.pus {
 							if bv[k][j] != dv[k][j] {
 								bad = "per-unit value changed while the change was only proposed"
 							}
-							if dec == 1 && av[k][j] != bv[k][j] {
+							if dec >= 1 && av[k][j] != bv[k][j] {
 								bad = "revert did not restore a per-unit value"
 							}
 							if dec == 0 && pu != puOfAction && av[k][j] != bv[k][j] {
@@ -227,10 +232,13 @@ func runTx(prop string, args []string) {
 							}
 						}
 					}
-					if dec == 1 && encAfter != encBefore {
+					if dec >= 1 && encAfter != encBefore {
 						bad = "revert did not restore the solution encoding"
 					}
-					if dec == 1 {
+					if dec >= 1 && !catchSameObs(attrsBefore, c.allAttrs()) {
+						bad = "revert did not restore the hidden per-unit attributes (later valuations will be wrong)"
+					}
+					if dec >= 1 {
 						ba, aa := before["active"].([]int), after["active"].([]int)
 						for j := range ba {
 							if ba[j] != aa[j] {
@@ -255,7 +263,7 @@ func runTx(prop string, args []string) {
 					if bad != "" {
 						fails++
 						if fails <= 5 {
-							emit(J{"kind": "oracle", "what": bad, "dataset": ds, "bits": bits, "i": i, "accept": dec == 0, "limit": limit,
+							emit(J{"kind": "oracle", "what": bad, "dataset": ds, "bits": bits, "i": i, "accept": dec == 0, "dec": dec, "limit": limit,
 								"before": before, "during": during, "changes": changes, "valid": valid, "quote": quote, "after": after})
 						}
 					}
